@@ -363,6 +363,48 @@ func genRelayNeg(s *src, o *out) {
 		}
 	}
 	o.defBytes("relayneg_handshake_order", strings.Join(order, " "))
+	// wrapOutput in stand-by: the detector the relay builds and the `tunnel` argument it passes
+	// to detectTrzsz, read as VALUES (0: a tunnel connector is configured; 1: the tunnelConnected
+	// flag; 2: true; 3: false); listenForTunnel: its guard and the two strings it exchanges
+	{
+		var detArgs []string
+		tunnelArg := ""
+		ast.Inspect(s.fn("TrzszRelay.wrapOutput").Body, func(n ast.Node) bool {
+			if c, ok := n.(*ast.CallExpr); ok {
+				switch s.text(c.Fun) {
+				case "newTrzszDetector":
+					for _, a := range c.Args {
+						detArgs = append(detArgs, s.text(a))
+					}
+				case "detector.detectTrzsz":
+					if len(c.Args) == 2 && s.text(c.Args[0]) == "buf" {
+						tunnelArg = s.text(c.Args[1])
+					}
+				}
+			}
+			return true
+		})
+		if len(detArgs) != 2 || (detArgs[0] != "true" && detArgs[0] != "false") || (detArgs[1] != "true" && detArgs[1] != "false") {
+			die("relayneg: wrapOutput no longer builds its detector with two boolean literals (%v)", detArgs)
+		}
+		o.raw("Definition relayneg_detector_relay : bool := %s.\nDefinition relayneg_detector_tmux : bool := %s.\n", detArgs[0], detArgs[1])
+		code, ok := map[string]int{"r.tunnelConnector.Load() != nil": 0, "r.tunnelConnected.Load()": 1, "true": 2, "false": 3}[tunnelArg]
+		if !ok {
+			die("relayneg: wrapOutput passes %q as the tunnel argument of detectTrzsz: not a value the model knows", tunnelArg)
+		}
+		o.raw("Definition relayneg_detect_tunnel_arg : N := %d.\n", code)
+		lf := s.fn("TrzszRelay.listenForTunnel")
+		guard := ""
+		if is, ok := lf.Body.List[0].(*ast.IfStmt); ok {
+			guard = s.text(is.Cond)
+		}
+		o.defBytes("relayneg_listen_guard_src", guard)
+		ret := ""
+		if r, ok := lf.Body.List[len(lf.Body.List)-1].(*ast.ReturnStmt); ok && len(r.Results) == 1 {
+			ret = s.text(r.Results[0])
+		}
+		o.defBytes("relayneg_port_rewrite_src", ret)
+	}
 	o.raw("Definition relayneg_escape_table_exported_fields : N := %d.\n", exported)
 	o.raw("Definition relayneg_escape_table_has_marshaler : bool := %v.\n", hasMarshal)
 }
